@@ -63,17 +63,18 @@ type watcher struct {
 
 // Server is one simulated etcd cluster.
 type Server struct {
-	mu       simrt.QuietMutex
-	sim      *simrt.Sim
-	rev      int64
-	kvs      map[string]*kv
-	leases   map[int64]*lease
-	nextID   int64
-	watchers []*watcher
-	wseq     int
-	Log      []Applied
-	LatUs    int64
-	active   *Server
+	clientSeq int
+	mu        simrt.QuietMutex
+	sim       *simrt.Sim
+	rev       int64
+	kvs       map[string]*kv
+	leases    map[int64]*lease
+	nextID    int64
+	watchers  []*watcher
+	wseq      int
+	Log       []Applied
+	LatUs     int64
+	active    *Server
 }
 
 var current *Server
@@ -772,8 +773,6 @@ func (wc *watchClient) Close() error                              { return nil }
 
 // ---------------------------------------------------------------- construction
 
-var clientSeq int
-
 // Client returns a real *clientv3.Client wired to the server; name identifies
 // the node for fault targeting ("@name" suffix of operation keys) and write
 // attribution.
@@ -782,7 +781,32 @@ func (s *Server) Client(name string) *clientv3.Client {
 	c.KV = clientv3.NewKVFromKVClient(&kvClient{s: s, name: name}, c)
 	c.Lease = &leaseClient{s: s, name: name}
 	c.Watcher = &watchClient{s: s, name: name}
+	c.Maintenance = &maintClient{s: s, name: name}
 	return c
+}
+
+// maintClient answers the two maintenance calls the operator makes; every other
+// method of the embedded (nil) interface panics if reached.
+type maintClient struct {
+	clientv3.Maintenance
+	s    *Server
+	name string
+}
+
+func (m *maintClient) Status(ctx context.Context, endpoint string) (*clientv3.StatusResponse, error) {
+	out := simrt.IO(ctx, "etcd.status", endpoint+"@"+m.name, m.s.lat(), nil)
+	if out.Fault != "" && !strings.HasSuffix(out.Fault, "slow") {
+		return nil, fmt.Errorf("simetcd: status %s: %s", endpoint, out.Fault)
+	}
+	return &clientv3.StatusResponse{DbSize: 1 << 20, DbSizeInUse: 1 << 19}, nil
+}
+
+func (m *maintClient) AlarmList(ctx context.Context) (*clientv3.AlarmResponse, error) {
+	out := simrt.IO(ctx, "etcd.alarmlist", "@"+m.name, m.s.lat(), nil)
+	if out.Fault != "" && !strings.HasSuffix(out.Fault, "slow") {
+		return nil, fmt.Errorf("simetcd: alarm list: %s", out.Fault)
+	}
+	return &clientv3.AlarmResponse{}, nil
 }
 
 // NextClientName lets a harness say which node the next New() call belongs to.
@@ -795,8 +819,8 @@ func New(cfg clientv3.Config) (*clientv3.Client, error) {
 	}
 	name := NextClientName
 	if name == "" {
-		clientSeq++
-		name = fmt.Sprintf("client%d", clientSeq)
+		current.clientSeq++
+		name = fmt.Sprintf("client%d", current.clientSeq)
 	}
 	return current.Client(name), nil
 }
